@@ -252,8 +252,9 @@ def oracle(chain, bare=False, quirks=""):
       a  additions contribute to the root where the marker survives   (C09-additions-in-root)
       c  own non-last constraints of a referencing type keep markers  (C09-chain-marker-kept)
       e  a union whose first operand is empty is empty                (C09-empty-union-operand)
-      b  the un-parenthesised SEQUENCE SIZE(...) OF loses its marker  (C09-bare-size-marker-lost)"""
-    qa, qc, qe, qb = ('a' in quirks), ('c' in quirks), ('e' in quirks), ('b' in quirks)
+    (the un-parenthesised SEQUENCE SIZE(...) OF spelling, `bare`, has no reading of its own:
+     C09-bare-size-marker-lost is repaired)"""
+    qa, qc, qe = ('a' in quirks), ('c' in quirks), ('e' in quirks)
     links = [l for l in chain if l]
     P = [(0, INF)]
     ext = False
@@ -262,8 +263,6 @@ def oracle(chain, bare=False, quirks=""):
         all_kept = qc and lastlink and li > 0
         for si, s in enumerate(link):
             kept = lastlink and (si == len(link) - 1 or all_kept)
-            if bare and qb and chain[0] is link:
-                kept = False
             P, x = o_nspec(P, s, kept, qa, qe)
             if kept:
                 ext = (ext or x) if all_kept else x
